@@ -5,6 +5,7 @@ import RbV.Lemmas.KChain
 import RbV.Lemmas.QGramIter
 import RbV.Lemmas.QGramExact
 import RbV.Lemmas.QGramMatches
+import RbV.Lemmas.QGramIndex
 /-!
 # C19 — k-mer / q-gram indexing and sparse chaining are exact
 
@@ -30,22 +31,8 @@ code are the same word — for every alphabet, whatever its size. -/
 theorem qgram_code_injective (alpha u v : List Nat) (hu : ∀ c ∈ u, c ∈ alpha) (hv : ∀ c ∈ v, c ∈ alpha)
     (hl : u.length = v.length)
     (h : code (bitsFor alpha.length) (u.map (rank alpha)) = code (bitsFor alpha.length) (v.map (rank alpha))) :
-    u = v := by
-  have hr := code_injective (bitsFor alpha.length) (u.map (rank alpha)) (v.map (rank alpha)) (by simpa using hl)
-    (by intro r hr; rcases List.mem_map.mp hr with ⟨c, hc, rfl⟩; exact rank_fits alpha c (hu c hc))
-    (by intro r hr; rcases List.mem_map.mp hr with ⟨c, hc, rfl⟩; exact rank_fits alpha c (hv c hc)) h
-  clear h
-  induction u generalizing v with
-  | nil => cases v with
-    | nil => rfl
-    | cons _ _ => simp at hl
-  | cons a u ih =>
-    cases v with
-    | nil => simp at hl
-    | cons b v =>
-      simp only [List.map_cons, List.cons.injEq] at hr
-      have hab := rank_injective (hu a (by simp)) (hv b (by simp)) hr.1
-      rw [hab, ih v (fun c hc => hu c (by simp [hc])) (fun c hc => hv c (by simp [hc])) (by simpa using hl) hr.2]
+    u = v :=
+  code_rank_injective alpha u v hu hv hl h
 
 /-- a q-gram code occupies at most `bits · q` bits -/
 theorem qgram_code_bound (alpha w : List Nat) (hw : ∀ c ∈ w, c ∈ alpha) :
@@ -105,6 +92,29 @@ theorem positions_unique (mc : Nat) (g t l : List Nat) (hs : l.Pairwise (· < ·
     (hm : ∀ i, i ∈ l ↔ OccursAt g t i ∧ (occurrences g t).length ≤ mc) : l = qgramPositions mc g t := by
   apply sorted_eq_of_mem_iff l _ hs (qgramPositions_sorted mc g t)
   intro i; rw [hm, mem_qgramPositions]
+
+/-- **mirror model of the index construction** (`with_max_count`: count per code, mask counts above `max_count`,
+exclusive prefix sums, fill `pos` through per-code offsets; `qgram_matches`: the slice between two addresses).
+With `2^(bits·q)` (+1) address slots — the size the repaired code allocates — the slice for the code of any q-gram over the
+alphabet is exactly `qgramPositions`, for every alphabet size, text, q and `max_count`. -/
+theorem index_model_refines (alpha : List Nat) (q mc : Nat) (text gram : List Nat) (hq : 0 < q)
+    (ht : ∀ c ∈ text, c ∈ alpha) (hg : ∀ c ∈ gram, c ∈ alpha) (hgl : gram.length = q) :
+    qgramMatchesModel (buildIndex (2 ^ (bitsFor alpha.length * q)) mc (fwdCodes alpha q text))
+        (code (bitsFor alpha.length) (gram.map (rank alpha))) = qgramPositions mc gram text :=
+  indexModel_eq alpha q mc text gram hq ht hg hgl
+
+/-- counting-sort core of the previous theorem, for any table size that exceeds every code -/
+theorem index_model_counting_sort (size mc : Nat) (codes : List Nat) (hcodes : ∀ c ∈ codes, c < size) (c : Nat)
+    (hc : c < size) :
+    qgramMatchesModel (buildIndex size mc codes) c = if codes.count c > mc then [] else posFrom c 0 codes :=
+  buildIndex_correct size mc codes hcodes c hc
+
+/-- the guard `code < size` is what the pinned tree violated: with `|A|^q` slots and the three-letter alphabet the q-gram
+`cc` (q = 2) has code 10 ≥ 9 -/
+example : code (bitsFor 3) ([99, 99].map (rank [97, 98, 99])) = 10 ∧ 3 ^ 2 = 9 ∧ 2 ^ (bitsFor 3 * 2) = 16 := by decide
+
+example : qgramMatchesModel (buildIndex 16 5 (fwdCodes [97, 98, 99] 2 [97, 98, 99, 99, 98, 99])) 6 = [1, 4] ∧
+    qgramPositions 5 [98, 99] [97, 98, 99, 99, 98, 99] = [1, 4] := by decide
 
 /-- the number of occurrences that decides masking is the number of positions at which the q-gram occurs -/
 theorem occurrence_count_exact (g t : List Nat) (i : Nat) : i ∈ occurrences g t ↔ OccursAt g t i :=
